@@ -167,30 +167,102 @@ def check_guards(ctx, cfg):
             first = pc[0].args[0]
             ok = first == ("V", "arg", 1) or (first[0] == "P" and first[1] == ("arg", 1) and not first[2].t)
             ok = ok and pc[1].args[0] == pc[0].ret and all(r["val"] == pc[1].ret for r in a.returns)
-        ctx.ob("C15.D", key, ok, "body is the chain %s applied to the argument, result returned: %s" % (" -> ".join((x[0] if isinstance(x, tuple) else x).split("::")[-1] for x in chain), ok), at=b["at"], cfg=cfg)
-    # __from_vec_helper: unwrap_unchecked on try_from_vec under the type-level equality U == N
-    key = K + "__from_vec_helper"
-    b = ctx.body(cfg, key, "C15.D")
-    if b is not None:
-        a = ctx.analysis(cfg, key)
-        pc = payload_calls(a)
-        names = [c.key or c.fn for c in pc]
-        eqp = any(p.get("k") == "proj" and p["def"].endswith("IntoArrayLength::ArrayLength") for p in b.get("predicates", []))
-        ok = names[:1] == [K + "try_from_vec"] and pc[0].args[0] == ("V", "arg", 2) and eqp
-        form = "try_from_vec(vec).unwrap_unchecked()"
-        if not ok and eqp:
-            # the same hand-over written out: into_boxed_slice(vec), then the SAME pointer back into a Box<GenericArray<T, N>> - reached only under len == N
-            N_ = a.tenv.length({"k": "param", "n": b["generics"][1]["n"]})
-            ibs = [c for c in a.calls if c.fn == "alloc::vec::Vec::<T, A>::into_boxed_slice" and c.args[0] == ("V", "arg", 2)]
-            ir = [c for c in a.calls if c.fn.endswith("::into_raw")]
-            fr = [c for c in a.calls if c.fn.endswith("::from_raw")]
-            if len(ibs) == 1 and len(ir) == 1 and len(fr) == 1:
-                same = ir[0].args[0] == ibs[0].ret and fr[0].args[0][0] == "P" and ir[0].ret[0] == "P" and fr[0].args[0][1] == ir[0].ret[1] and fr[0].args[0][2] == ir[0].ret[2]
-                ln = [c for c in a.calls if c.fn == "core::slice::<impl [T]>::len" and c.ret[0] == "I"]
-                guard = any(a.prove(fr[0].facts, "Eq", c.ret[1], N_) for c in ln) or (ir[0].ret[3] is not None and a.prove(fr[0].facts, "Eq", ir[0].ret[3], N_))
-                ok = same and guard and all(r["val"] == fr[0].ret for r in a.returns)
-                form = "Box::from_raw(Box::into_raw(vec.into_boxed_slice()) as *mut GenericArray<T, N>) under len == N (same pointer: %s, guard: %s)" % (same, guard)
-        ctx.ob("C15.D", key, ok, "__from_vec_helper = %s with Const<U>: IntoArrayLength<ArrayLength = N> tying the unit-array length to N: %s (that vec.len() == U is established by the macro expansion, C20.B)" % (form, ok), at=b["at"], cfg=cfg)
+        det = "body is the chain %s applied to the argument, result returned: %s" % (" -> ".join((x[0] if isinstance(x, tuple) else x).split("::")[-1] for x in chain), ok)
+        if not ok:
+            alt = ALT_FORMS.get(key)
+            r = alt(ctx, cfg, a, b) if alt else None
+            if r is not None:
+                ok, det = r
+        ctx.ob("C15.D", key, ok, det, at=b["at"], cfg=cfg)
+    # the hidden Vec -> Box<GenericArray> helpers of box_arr! (discovered: any `GenericArray::__*` function taking a Vec<T> and returning the box)
+    helpers = []
+    for hb in ctx.db(cfg).bodies:
+        if hb["kind"] == "AssocFn" and hb["key"].startswith(K + "__") and "sig" in hb:
+            vi = [i for i, t in enumerate(hb["sig"]["inputs"]) if t.get("k") == "adt" and t["def"] == "alloc::vec::Vec"]
+            out = hb["sig"]["output"]
+            if len(vi) == 1 and out.get("k") == "adt" and out["def"] == "alloc::boxed::Box" and is_ga(adt_args(out)[0]):
+                helpers.append((hb, vi[0] + 1))
+    if not any(hb["key"] == K + "__from_vec_helper" for hb, _ in helpers):
+        ctx.body(cfg, K + "__from_vec_helper", "C15.D")
+    for hb, vi in helpers:
+        check_vec_helper(ctx, cfg, hb, vi)
+
+
+def check_vec_helper(ctx, cfg, b, vi):
+    """A macro helper adopting a Vec as Box<GenericArray<T, N>>: either try_from_vec(vec) unwrapped (unchecked only under the type-level tie
+    Const<U>: IntoArrayLength<ArrayLength = N>), or the same hand-over written out under a len == N guard. Crate-local calls are expanded."""
+    key = b["key"]
+    name = key.split("::")[-1]
+    a = ctx.analysis_inl(cfg, key, force="*", keep=(K + "try_from_vec",), tag="helper")
+    pc = payload_calls(a)
+    vec = ("V", "arg", vi)
+    eqp = any(p.get("k") == "proj" and p["def"].endswith("IntoArrayLength::ArrayLength") for p in b.get("predicates", []))
+    tv = [c for c in a.calls if c.key == K + "try_from_vec"]
+    ok, form = False, "neither try_from_vec(vec) unwrapped nor a guarded into_boxed_slice -> from_raw hand-over found"
+    if len(tv) == 1 and tv[0].args[0] == vec:
+        uw = [c for c in a.calls if c.args and c.args[0] == tv[0].ret and c.fn.split("::")[-1] in ("unwrap", "expect", "unwrap_unchecked")]
+        checked = bool(uw) and uw[0].fn.split("::")[-1] != "unwrap_unchecked"
+        ok = len(uw) == 1 and (checked or eqp) and all(r["val"] == uw[0].ret or r["val"][0] == "P" for r in a.returns)
+        form = "try_from_vec(vec).%s()%s" % (uw[0].fn.split("::")[-1] if uw else "?", "" if checked else " with Const<U>: IntoArrayLength<ArrayLength = N> tying the unit-array length to N: %s (that vec.len() == U is established by the macro expansion, C20.B)" % eqp)
+    else:
+        # the same hand-over written out: into_boxed_slice(vec), then the SAME pointer back into a Box<GenericArray<T, N>> - reached only under len == N
+        N_ = a.tenv.length({"k": "param", "n": b["generics"][1]["n"]})
+        ibs = [c for c in a.calls if c.fn == "alloc::vec::Vec::<T, A>::into_boxed_slice" and c.args[0] == vec]
+        ir = [c for c in a.calls if c.fn.endswith("::into_raw")]
+        fr = [c for c in a.calls if c.fn.endswith("::from_raw")]
+        if len(ibs) == 1 and len(ir) == 1 and len(fr) == 1:
+            same = ir[0].args[0] == ibs[0].ret and fr[0].args[0][0] == "P" and ir[0].ret[0] == "P" and fr[0].args[0][1] == ir[0].ret[1] and fr[0].args[0][2] == ir[0].ret[2]
+            ln = [c for c in a.calls if c.fn == "core::slice::<impl [T]>::len" and c.ret[0] == "I"]
+            guard = any(a.prove(fr[0].facts, "Eq", c.ret[1], N_) for c in ln) or (ir[0].ret[3] is not None and a.prove(fr[0].facts, "Eq", ir[0].ret[3], N_))
+            ok = same and guard and all(r["val"] == fr[0].ret for r in a.returns)
+            form = "Box::from_raw(Box::into_raw(vec.into_boxed_slice()) as *mut GenericArray<T, N>) under len == N (same pointer: %s, guard: %s)" % (same, guard)
+    ctx.ob("C15.D", key, ok, "%s = %s: %s" % (name, form, ok), at=b["at"], cfg=cfg)
+
+
+def alt_into_vec(ctx, cfg, a0, b):
+    """into_vec written out: the returned Vec is made by an allocation-preserving std constructor from the SAME block (offset 0) with len == cap == N."""
+    a = ctx.analysis_inl(cfg, b["key"], force="*", tag="heap")
+    N = a.tenv.length({"k": "param", "n": b["generics"][1]["n"]})
+
+    def same_block(p):
+        return p[0] == "P" and p[1] == ("arg", 1) and not p[2].t
+    frp = [c for c in a.calls if c.fn in ("alloc::vec::Vec::<T>::from_raw_parts", "alloc::vec::Vec::<T, A>::from_raw_parts_in")]
+    conv = [c for c in a.calls if (c.fn in ("core::convert::From::from", "core::convert::Into::into", "alloc::slice::<impl [T]>::into_vec"))]
+    others = [c.fn for c in payload_calls(a) if c not in frp and c not in conv and not c.fn.endswith("::into_raw") and not c.fn.endswith("::cast")]
+    if len(frp) == 1 and not conv:
+        c = frp[0]
+        ok = same_block(c.args[0]) and a.as_poly(c.args[1]) == N and a.as_poly(c.args[2]) == N and all(r["val"] == c.ret for r in a.returns) and not others
+        return ok, "into_vec = Vec::from_raw_parts(the box's own block at offset 0: %s, len N: %s, capacity N: %s), returned; no other call: %s" % (
+            same_block(c.args[0]), a.as_poly(c.args[1]) == N, a.as_poly(c.args[2]) == N, not others)
+    if len(conv) == 1 and not frp:
+        c = conv[0]
+        ok = same_block(c.args[0]) and c.args[0][3] == N and all(r["val"] == c.ret for r in a.returns) and not others
+        return ok, "into_vec = std's allocation-preserving Box<[T]> -> Vec<T> conversion of the box's own block as a slice of exactly N elements: %s, returned; no other call: %s" % (same_block(c.args[0]) and c.args[0][3] == N, not others)
+    return None
+
+
+def alt_unbox(ctx, cfg, a, b):
+    """TryFrom<Box<[T]>> for GenericArray written as `try_from_boxed_slice(value)` followed by moving the array out of the box on the Ok path
+    (`.map(|b| *b)`, a match, or `?`): Ok carries the whole pointee of the Ok box, the box itself is then only freed, Err is passed on."""
+    tb = [c for c in a.calls if c.key == K + "try_from_boxed_slice"]
+    if len(tb) != 1:
+        return None
+    t0 = tb[0]
+    arg_ok = t0.args[0][0] == "P" and t0.args[0][1] == ("arg", 1) and not t0.args[0][2].t
+    oks, errs = c07.results(a)
+    okbox = ("V", "proj", ("proj", t0.ret, (("v", 0), 0)))
+    moved = bool(oks) and all(g["ops"][0] == ("V", "cell", (("obj", okbox[1:]), ())) and ("variant", t0.ret, 0) in g["facts"] for g in oks)
+    errp = all(("variant", t0.ret, 1) in g["facts"] for g in errs)
+    from ..typestate import has_generic
+    deep = [d["tys"] for d in a.drops if not d["cleanup"] and has_generic(d["ty"]) and d["ty"].get("k") == "adt" and d["ty"]["def"] != "alloc::boxed::Box"]
+    others = [c.fn for c in payload_calls(a) if c is not t0 and not (c.fn == "core::ops::Drop::drop" and ("variant", t0.ret, 0) in c.facts)]
+    ok = arg_ok and moved and errp and not deep and not others
+    return ok, ("try_from = try_from_boxed_slice(value) (whole argument: %s); Ok carries the array moved out of the Ok box: %s; Err only on its Err: %s; "
+                "the emptied box is only freed (no element drop: %s); no other call: %s" % (arg_ok, moved, errp, not deep, not others or others))
+
+
+ALT_FORMS = {K + "into_vec": alt_into_vec,
+             "<GenericArray<$0,$1> as core::convert::TryFrom<alloc::boxed::Box<[$0],alloc::alloc::Global>>>::try_from": alt_unbox}
 
 
 def check_reuse(ctx, cfg):
